@@ -47,11 +47,11 @@ func known(key string) bool {
 type Case struct {
 	Chain    ck.ChainCfg `json:"chain"`
 	Prog     Program     `json:"prog"`
-	Sender   int         `json:"sender"`   // account paying for the program transaction
-	Deployer int         `json:"deployer"` // account deploying the generated contracts
-	Noise    []ck.Action `json:"noise"`    // other transactions of the block
-	Pos      int         `json:"pos"`      // position of the program transaction among them
-	PreFee   int64       `json:"pre_fee"`  // >= 0: a committee setFeePerByte(PreFee) transaction right before the program (dirty block-level cache)
+	Sender   int         `json:"sender"`    // account paying for the program transaction
+	Deployer int         `json:"deployer"`  // account deploying the generated contracts
+	Noise    []ck.Action `json:"noise"`     // other transactions of the block
+	Pos      int         `json:"pos"`       // position of the program transaction among them
+	PreFee   int64       `json:"pre_fee"`   // >= 0: a committee setFeePerByte(PreFee) transaction right before the program (dirty block-level cache)
 	PreBlock int         `json:"pre_block"` // >= 0: a committee blockAccount(target) transaction before the program
 	Nonce    uint32      `json:"nonce"`
 	BNonce   uint64      `json:"bnonce"`
@@ -181,7 +181,7 @@ func (w *world) probeScript() []byte {
 func (w *world) observe(bc *core.Blockchain) (*mstate, error) {
 	st := &mstate{bal: map[string]int64{}, blocked: map[string]bool{}}
 	sm := ck.StorageMap(bc)
-	for c, id := range w.ids {
+	for _, id := range w.ids {
 		m := map[string]string{}
 		pref := fmt.Sprintf("%d/", id)
 		for k, v := range sm {
@@ -191,7 +191,6 @@ func (w *world) observe(bc *core.Blockchain) (*mstate, error) {
 			}
 		}
 		st.stor = append(st.stor, m)
-		_ = c
 	}
 	// Policy value: cache (Go API), cache (VM getter), storage item.
 	polID, gasID, mgmtID := int32(-7), int32(-6), int32(-1)
@@ -591,6 +590,31 @@ func runCase(c Case, o *vt.Obs, strict bool) (*outcome, error) {
 			return out, fmt.Errorf("notifications of the HALTed program transaction: %s", d)
 		}
 	}
+	if out.halted {
+		// A consumer of notifications: the NEP-17 transfer log holds exactly the kept transfers of the transaction.
+		for _, k := range w.allKeys() {
+			var want, got []string
+			for _, x := range out.expected.xfers {
+				if x.from == k {
+					want = append(want, fmt.Sprintf("%d:%s", -x.n, w.hashOfKey(x.to).StringLE()))
+				}
+				if x.to == k {
+					want = append(want, fmt.Sprintf("%d:%s", x.n, w.hashOfKey(x.from).StringLE()))
+				}
+			}
+			_ = bc.ForEachNEP17Transfer(w.hashOfKey(k), ^uint64(0)>>1, func(t *state.NEP17Transfer) (bool, error) {
+				if t.Tx == ptx.Hash() {
+					got = append(got, fmt.Sprintf("%s:%s", t.Amount.String(), t.Counterparty.StringLE()))
+				}
+				return true, nil
+			})
+			sort.Strings(want)
+			sort.Strings(got)
+			if strings.Join(want, ",") != strings.Join(got, ",") {
+				return out, fmt.Errorf("NEP-17 transfer log of %s for the HALTed program transaction: expected [%s], node recorded [%s]", k, strings.Join(want, ","), strings.Join(got, ","))
+			}
+		}
+	}
 	if out.halted && m.caughtEffects && !out.expected.equal(init) {
 		o.NonTrivial()
 	}
@@ -618,7 +642,9 @@ func haltStr(h bool) string {
 	return "FAULT"
 }
 
-func gasKey(h util.Uint160) string { return fmt.Sprintf("st/-6/%x", append([]byte{20}, h.BytesBE()...)) }
+func gasKey(h util.Uint160) string {
+	return fmt.Sprintf("st/-6/%x", append([]byte{20}, h.BytesBE()...))
+}
 
 func gasOf(d ck.Dump, key string) (*big.Int, error) {
 	v, ok := d[key]
